@@ -192,7 +192,7 @@ func oneStraddle(r *vkit.Run, s *srv, e *env, reqs []*requester, c *content, idx
 			"phase": "straddle", "case_index": idx, "hash_filter": kind, "host": host, "qtype": dns.TypeToString[qt],
 			"version_before": vOld, "version_after": vNew, "host_listed_before": !added, "host_listed_after": added,
 			"through": map[bool]string{true: "hashprefix.Filter.FilterRequest", false: "filterstorage.Default.ForConfig(...).FilterRequest"}[direct],
-			"steps": steps,
+			"steps":   steps,
 		}
 		for k, v := range extra {
 			w[k] = v
@@ -392,7 +392,12 @@ func concurrentPhase(r *vkit.Run, s *srv) {
 
 func oneConcurrent(r *vkit.Run, s *srv, idx int, comp string) (goOn bool) {
 	rng := r.Rand("conc", idx)
-	const nReaders, nWrites = 8, 3
+	const nReaders = 8
+	nWrites := 3
+	if comp == "safesearch" {
+		// the one storage-level result cache that outlives a refresh: more refreshes
+		nWrites = 6
+	}
 	// readers run until the refresher is through (count-based hand-shakes
 	// below), at most readerCap queries each
 	readerCap := 600
